@@ -32,6 +32,14 @@ pub fn name_pools() -> Vec<(Vec<&'static str>, Vec<&'static str>)> {
         (vec!["a-b", "a", "b", "a_b", "a:b", "ab"], vec!["a-b", "a:b"]),
         // prefixes that merely begin with `xmlns`, and names with several colons
         (vec!["xmlnsx:a", "a", "xmlns_b:c", "p:q:r", "p:q"], vec!["xmlnsx:id", "xmlns_old:type", "xmlnsfoo", "xmlns", "xmlns:p", "p:q:id", "id"]),
+        // well-known attribute names that tempt special treatment; digits followed by capitals
+        (vec!["title", "X509Data", "Sha256Digest", "IPv4Address", "h1Title", "entry"], vec!["xsi:nil", "xml:lang", "xml:space", "xml:id", "nil", "xmlns:xsi", "lang"]),
+        // a prefix that is the stem of a numbered / separator sibling; names that are trait names
+        (vec!["opt:x", "opt1", "opt-z", "opt.y", "opt", "serialize", "clone", "debug", "Deserialize"], vec!["ns:b", "ns1:d", "ns-c", "ns", "value", "id"]),
+        // letters outside the usual scripts whose case image is ASCII: keywords only after conversion
+        (vec!["BREA\u{212A}", "brea\u{212A}", "\u{212A}ey", "item", "\u{2126}hm", "STRA\u{1E9E}E", "\u{212B}ngstrom"], vec!["\u{212A}ind", "brea\u{212A}", "as\u{17F}", "id"]),
+        // characters no XML name may contain but the tokenizer lets through
+        (vec!["a", "@b", "$text", "b", "text", "@"], vec!["b", "text", "$text"]),
     ]
 }
 
@@ -387,6 +395,9 @@ pub fn run_docprop(ctx: &mut Ctx, p: DocProp) {
     }
     let files = sh.finish();
     ctx.shards.extend(files);
+    if matches!(ctx.prop.as_str(), "C03" | "C06" | "C01") {
+        evaluations += crate::ops::run_mixed(ctx, &mut hist);
+    }
     {
         let imports = "From XSG.Model Require Import Strings Necessity Element Render Reparse.\nFrom XSG.Corr Require Import Common Oracles ReparseCorr.\nFrom Coq Require Import String.";
         let evals = vec![ev("reparse", "ev_reparse", "corr")];
@@ -417,7 +428,7 @@ pub fn run_docprop(ctx: &mut Ctx, p: DocProp) {
     ctx.meta.push(("evaluations", J::N(evaluations)));
     ctx.meta.push(("distinct_nontrivial", J::N(distinct.len() as i64)));
     ctx.meta.push(("rule", json::s(format!(
-        "documents as DOM trees serialised with random incidental detail: {}{} random sequences of 1-{} documents with a common root (19 fixed name pools and, for a third of the cases, a pool of random names incl. keywords, case/separator variants, prefixed, non-ASCII, concatenation traps; depth<=5, fan-out<=6); {}; non-trivial = at least 3 nodes, distinct by DOM sequence",
+        "documents as DOM trees serialised with random incidental detail: {}{} random sequences of 1-{} documents with a common root (23 fixed name pools and, for a third of the cases, a pool of random names incl. keywords, case/separator variants, prefixed, non-ASCII, concatenation traps; depth<=5, fan-out<=6); {}; non-trivial = at least 3 nodes, distinct by DOM sequence",
         exh_note, n_rand, p.max_docs, p.what))));
     ctx.meta.push(("histogram", hist.json()));
     ctx.meta.push(("samples", J::A(samples)));
@@ -445,7 +456,9 @@ fn rand_string(rng: &mut Rng, alphabet: &[char], max: usize) -> String {
 fn rand_ident(rng: &mut Rng) -> String {
     if rng.chance(1, 2) {
         // incl. strings that are themselves the beginning of attribute names of the pools
-        rng.pick(&["$text", "$value", "text", "#text", "body", "", "@", "attr_", "_", "x-", " ", "$", "Text", "text_content", "a", "x", "k", "id", "i", "xml", "xmlns", "p:", "a-"]).to_string()
+        rng.pick(&["$text", "$value", "text", "#text", "body", "", "@", "attr_", "_", "x-", " ", "$", "Text", "text_content", "a", "x", "k", "id", "i", "xml", "xmlns", "p:", "a-",
+                   // identifiers that equal (prefix +) the name of an attribute of the pools
+                   "value", "@value", "@id", "@x", "lang", "@lang", "@k", "@a", "y", "@y", "z", "{}", "%s"]).to_string()
     } else {
         rand_string(rng, &['$', '@', '#', 't', 'e', 'x', '_', '-', ' ', ':', 'T', '1', 'я'], 6)
     }
@@ -455,6 +468,7 @@ fn rand_derive(rng: &mut Rng) -> String {
         rng.pick(&[
             "Serialize, Deserialize", "", "Debug, Clone", "Debug", "serde::Deserialize, PartialEq", "A(B), C", " ", " Debug", "Debug ", "\tClone", "  ", "Debug,Clone , ",
             // long lists (anything that wraps, truncates or reformats above a width)
+            "Debug, {}", "{{}}", "{0}, {}", "%s, %d", "Debug, {name}", "\\n", "Debug)] #[cfg(", "serialize, Clone, debug",
             "Debug, Clone, PartialEq, Eq, Hash, PartialOrd, Ord, Default, serde::Serialize, serde::Deserialize",
             "Debug, Clone, PartialEq, Eq, Hash, PartialOrd, Ord, Default, serde::Serialize, serde::Deserialize, schemars::JsonSchema, derive_more::Display, derive_more::From, derive_more::Into, derive_builder::Builder, validator::Validate, utoipa::ToSchema, ts_rs::TS, strum::EnumString, strum::Display,,  Copy",
         ]).to_string()
@@ -488,7 +502,7 @@ pub fn c04(ctx: &mut Ctx) {
     let mut evals = vec![ev("bytes", "ev_bytes", "corr"), ev("wf", "or_wf", "oracle"), ev("reflects", "or_reflects", "oracle"), ev("hyp", "in_hyp_names", "hyp")];
     // renderer-only property: the parser's internal state is not compared here (a harmless rewrite
     // of the parser must not break this check); `bytes` renders the implementation's own tree
-    run_docprop(ctx, DocProp { evals, opts: opts_presets, exhaustive: false, n_rand: (2500, 60000), pools: vec![3, 4, 5, 6, 7, 8, 9, 10, 11, 12, 14, 15, 16, 17, 18], tweak: no_tweak, extra: None, max_docs: 3, with_chars: true, what: "adversarial name pools only; both presets x both sort options" });
+    run_docprop(ctx, DocProp { evals, opts: opts_presets, exhaustive: false, n_rand: (2500, 60000), pools: vec![3, 4, 5, 6, 7, 8, 9, 10, 11, 12, 14, 15, 16, 17, 18, 19, 20, 21], tweak: no_tweak, extra: None, max_docs: 3, with_chars: true, what: "adversarial name pools only; both presets x both sort options" });
 }
 /// implementation-only: one element with `n` distinct children (far beyond what the model can
 /// evaluate per run); the fields and the struct definitions must follow the document (unsorted)
